@@ -33,7 +33,8 @@ class Packet:
         Note: as a performance optimization, subsequent calls to this method
         will return a cached encoded packet, even if the data has changed.
         """
-        if self.encode_cache:
+        if self.encode_cache and not self.binary:
+            # binary packets have a different encoding for each value of b64
             return self.encode_cache
         if self.binary:
             if b64:
